@@ -15,13 +15,20 @@ import (
 // A guard i < len(x) cannot drop an element silently (the read of the highest offset panics instead) and is accepted;
 // a bound that is not the list's own length is not decided here. Unit-stride loops (today's tree) have no leftover.
 func ruleC16Strides(cx *Ctx) []Obligation {
+	return ruleStrides(cx, "C16/O16.8/stride-cover", "plonk")
+}
+
+// ruleStrides: the same rule for another package under that property's key (C08: goldilocks, whose list functions
+// serve lists of any length). Not armed for fri (its lists have power-of-two lengths ≥ 2 by construction, so a walk by
+// two without a tail is correct there and a report would be a false alarm) nor for gates (no list is walked by a loop
+// index there: the rule would be vacuous).
+func ruleStrides(cx *Ctx, key, pkg string) []Obligation {
 	P := cx.P
-	key := "C16/O16.8/stride-cover"
-	desc := "every loop of package plonk that walks an extension list is either unit-stride or, when it advances by k ≥ 2 under a guard i + g < len(x) (g ≥ 1), hands the elements left at its end on (a read or re-slice of x at len(x)/i outside the loop)"
+	desc := "every loop of package " + pkg + " that walks an extension list is either unit-stride or, when it advances by k ≥ 2 under a guard i + g < len(x) (g ≥ 1), hands the elements left at its end on (a read or re-slice of x at len(x)/i outside the loop)"
 	var obs []Obligation
 	walked := 0
 	for _, fn := range P.ModuleFuncsSorted() {
-		if fnPkgShort(fn) != "plonk" || fn.Blocks == nil {
+		if fnPkgShort(fn) != pkg || fn.Blocks == nil {
 			continue
 		}
 		fi := GetFnInfo(fn)
@@ -210,7 +217,10 @@ func ruleC16Strides(cx *Ctx) []Obligation {
 		}
 	}
 	if walked == 0 {
-		obs = append(obs, undecided(key, desc, "no loop of package plonk walks an extension list by a loop index"))
+		// nothing is walked by an index (range loops only): no strided walk exists that could drop a leftover. That the
+		// rule is not blind is shown on every thorough run by the corpus (M143–M145 fire), not by a floor here —
+		// a floor would report a correct rewrite of the loops into range form.
+		obs = append(obs, good(key, desc, "package "+pkg+": no loop walks an extension list by a loop index"))
 	}
 	return obs
 }
